@@ -14,6 +14,7 @@ import (
 	"os"
 	"sort"
 	"strconv"
+	"strings"
 	"sync"
 	"sync/atomic"
 	"time"
@@ -101,6 +102,10 @@ func runC04Case(run *ev.Run, cs c04Case) {
 	var atkRef atomic.Pointer[vegeta.Attacker]
 	p.decide = func(i int, _ time.Duration, _ uint64) (time.Duration, bool) {
 		if cs.StopAt > 0 && i >= cs.StopAt {
+			if i == cs.StopAt && cs.Seed%2 == 0 {
+				// a stop answer may come with any wait: it is not to be slept (watched below)
+				return 2 * time.Second, true
+			}
 			if i == cs.StopAt+1000 {
 				// an attack that keeps consulting a pacer that said stop a thousand times will not end
 				// by itself: end it from outside, the recorded calls are judged below (paced-after-stop)
@@ -143,7 +148,35 @@ func runC04Case(run *ev.Run, cs c04Case) {
 	atk := vegeta.NewAttacker(vegeta.Client(&http.Client{Transport: rt}), vegeta.Workers(cs.Workers), vegeta.MaxWorkers(cs.Max))
 	atkRef.Store(atk)
 	results := atk.Attack(tg.Targeter(), p, cs.Duration, "c04")
-	tAfter := time.Since(base) // Attack has returned: the attack's start instant lies in [0, tAfter]
+	tAfter := time.Since(base)
+	// after the pacer has said stop the attack loop has nothing to wait for: a loop found asleep
+	// (goroutine state "sleep", a logical fact of the dump, whatever the machine's load) in
+	// several dumps after the stop answer is sleeping the wait that came with the answer
+	var sleptAfterStop atomic.Int32
+	watchQuit := make(chan struct{})
+	defer close(watchQuit)
+	if cs.StopAt > 0 {
+		go func() {
+			for {
+				select {
+				case <-watchQuit:
+					return
+				case <-time.After(150 * time.Millisecond):
+				}
+				p.mu.Lock()
+				said := len(p.recs) > 0 && p.recs[len(p.recs)-1].Stop && p.recs[len(p.recs)-1].TReturn > 0
+				p.mu.Unlock()
+				if !said {
+					continue
+				}
+				for _, g := range goroutineDump() {
+					if g.State == "sleep" && strings.Contains(g.Frames, "lib.(*Attacker).Attack.func1") {
+						sleptAfterStop.Add(1)
+					}
+				}
+			}
+		}()
+	} // Attack has returned: the attack's start instant lies in [0, tAfter]
 
 	var got []*vegeta.Result
 	var consT []time.Duration // harness clock just before each receive: a lower bound of the hand-over instant
@@ -201,6 +234,9 @@ func runC04Case(run *ev.Run, cs c04Case) {
 	}
 	if p.overlap.Load() {
 		viol("pace-calls-overlap", "free-running", "two Pace calls were in progress at once", nil, nil)
+	}
+	if n := sleptAfterStop.Load(); n >= 3 {
+		viol("slept-after-pacer-stop", "free-running", fmt.Sprintf("the pacer said stop (its answer carried a wait of 2s); in %d goroutine dumps taken afterwards the attack loop was asleep instead of ending the attack", n), recs[max(0, len(recs)-2):], nil)
 	}
 	falseCalls := 0
 	for i, r := range recs {
